@@ -881,8 +881,14 @@ def symbols(t):
     return r
 
 
-def cone(assertions, seeds):
-    """conjuncts of `assertions` transitively sharing symbols with the seed terms"""
+def cone(assertions, seeds, defs=None):
+    """Conjuncts of `assertions` that can matter for the seed terms.
+
+    Plain facts are included when they share a symbol (transitively) with the seeds.  A *definition*
+    (defs: fact -> name of the constant it introduced, i.e. `c = term` where c was fresh when the fact was
+    assumed) is included only when its constant is wanted: an unwanted definition merely names a value and
+    cannot constrain anything else (its constant occurs in no included fact)."""
+    defs = defs or {}
     want = set()
     for s in seeds:
         want |= symbols(s)
@@ -893,14 +899,14 @@ def cone(assertions, seeds):
         changed = False
         keep = []
         for a, sy in rest:
-            if not sy or (sy & want):
-                if sy:
-                    picked.append(a)
-                    if not sy <= want:
-                        want |= sy
-                    changed = True
-                else:
-                    picked.append(a)
+            d = defs.get(a)
+            if not sy:
+                picked.append(a)
+            elif (d is not None and d in want) or (d is None and (sy & want)):
+                picked.append(a)
+                if not sy <= want:
+                    want |= sy
+                changed = True
             else:
                 keep.append((a, sy))
         rest = keep
